@@ -12,7 +12,7 @@ LEVEL_TEXT = (
     'scripted Vec client sends and advances on exactly the same paths. Behavioural isomorphism itself '
     'is not decided.')
 
-FLOORS = {'C15-R1': 20, 'C15-R2': 30, 'C15-R3': 3}
+FLOORS = {'C15-R1': 20, 'C15-R2': 30, 'C15-R3': 3, 'C06-R6': 13}
 
 HANDLERS = ('on_start', 'on_msg', 'on_timeout', 'on_random', 'name')
 # (impl self type prefix, handler) -> reason
@@ -201,6 +201,12 @@ def run(ctx):
                               bad='%s::%s re-wraps the wrapped actor\'s new state as %r (self variant %s): '
                                   'the outer state changes kind or carries a different value' %
                                   (selfty, h, wrapped_variant, var), span=st['span'])
+    # the adapters hand commands on through Out::append: it must move them unchanged
+    import c06
+    ctx.doc('C06-R6', 'Out::{append, send, set_timer, cancel_timer, choose_random, remove_random, broadcast} and the '
+                      'Timers/RandomChoices primitives do exactly what their names say')
+    with ctx.rule('C06-R6', 'primitives'):
+        c06.r6_primitives(ctx, F)
     # R3: scripted client
     with ctx.rule('C15-R3', 'Vec client'):
         b = F.body('<std::vec::Vec<(actor::Id, Msg)> as actor::Actor>::on_msg')
